@@ -25,7 +25,7 @@ RING_BUFFER_ITER_API(ring64, uint64_t)
 RING_BUFFER(ring64, uint64_t)
 RING_BUFFER_ITER(ring64, uint64_t)
 
-#define MAXCAP 64
+#define MAXCAP 700
 
 struct model {
     uint64_t q[MAXCAP];
@@ -99,7 +99,9 @@ static const char *opname[] = { "put(a)", "put(b)", "get", "clear", "override(on
         size_t head, tail;                                                                                          \
         bool ovr;                                                                                                   \
         TYPE data[4];                                                                                               \
-        struct model m;                                                                                             \
+        uint64_t mq[4];                                                                                             \
+        size_t mn;                                                                                                  \
+        bool movr;                                                                                                  \
     };                                                                                                              \
     static void NAME##_closure(size_t cap, TYPE a, TYPE b)                                                          \
     {                                                                                                               \
@@ -118,10 +120,12 @@ static const char *opname[] = { "put(a)", "put(b)", "get", "clear", "override(on
         st[0].tail = rb.tail;                                                                                       \
         st[0].ovr = rb.override_if_full;                                                                            \
         memcpy(st[0].data, data, cap * sizeof(TYPE));                                                               \
-        st[0].m.cap = cap;                                                                                          \
+        static struct model m;                                                                                      \
+        memset(&m, 0, sizeof m);                                                                                    \
+        m.cap = cap;                                                                                                \
         keys[0] = vh_hash(&st[0], sizeof st[0]);                                                                    \
         nst = 1;                                                                                                    \
-        NAME##_observe(&rb, &st[0].m, "initial");                                                                   \
+        NAME##_observe(&rb, &m, "initial");                                                                   \
         while (work < nst) {                                                                                        \
             for (int op = 0; op < NOPS; op++) {                                                                     \
                 struct NAME##_st cur; memcpy(&cur, &st[work], sizeof cur);                                                                 \
@@ -132,33 +136,41 @@ static const char *opname[] = { "put(a)", "put(b)", "get", "clear", "override(on
                 rb.tail = cur.tail;                                                                                 \
                 rb.override_if_full = cur.ovr;                                                                      \
                 memcpy(data, cur.data, cap * sizeof(TYPE));                                                         \
+                memset(&m, 0, sizeof m);                                                                            \
+                m.cap = cap;                                                                                        \
+                m.n = cur.mn;                                                                                       \
+                m.override = cur.movr;                                                                              \
+                memcpy(m.q, cur.mq, sizeof cur.mq);                                                                 \
                 char ctx[160];                                                                                      \
                 snprintf(ctx, sizeof ctx, "cap=%zu state(head=%zu tail=%zu ovr=%d n=%zu) op=%s", cap, cur.head,     \
-                         cur.tail, cur.ovr, cur.m.n, opname[op]);                                                   \
+                         cur.tail, cur.ovr, cur.mn, opname[op]);                                                   \
                 switch (op) {                                                                                       \
-                case OP_PUT_A: NAME##_put(&rb, a); m_put(&cur.m, (uint64_t)a); break;                               \
-                case OP_PUT_B: NAME##_put(&rb, b); m_put(&cur.m, (uint64_t)b); break;                               \
+                case OP_PUT_A: NAME##_put(&rb, a); m_put(&m, (uint64_t)a); break;                               \
+                case OP_PUT_B: NAME##_put(&rb, b); m_put(&m, (uint64_t)b); break;                               \
                 case OP_GET: {                                                                                      \
                     TYPE g = NAME##_get(&rb);                                                                       \
-                    uint64_t e = m_get(&cur.m);                                                                     \
+                    uint64_t e = m_get(&m);                                                                     \
                     if ((uint64_t)g != e)                                                                           \
                         vh_fail("get", "type=" TAG, "%s: got %" PRIx64 " model %" PRIx64, ctx, (uint64_t)g, e);     \
                     break;                                                                                          \
                 }                                                                                                   \
-                case OP_CLEAR: NAME##_clear(&rb); cur.m.n = 0; break;                                               \
-                case OP_OVR_ON: NAME##_override_if_full(&rb, true); cur.m.override = true; break;                   \
-                default: NAME##_override_if_full(&rb, false); cur.m.override = false; break;                        \
+                case OP_CLEAR: NAME##_clear(&rb); m.n = 0; break;                                               \
+                case OP_OVR_ON: NAME##_override_if_full(&rb, true); m.override = true; break;                   \
+                default: NAME##_override_if_full(&rb, false); m.override = false; break;                        \
                 }                                                                                                   \
                 trans++;                                                                                            \
                 if (rb.data != data || rb.datasize != cap)                                                          \
                     vh_fail("struct", "type=" TAG, "%s: data pointer or capacity changed", ctx);                    \
-                NAME##_observe(&rb, &cur.m, ctx);                                                                   \
+                NAME##_observe(&rb, &m, ctx);                                                                   \
                 cur.head = rb.head;                                                                                 \
                 cur.tail = rb.tail;                                                                                 \
                 cur.ovr = rb.override_if_full;                                                                      \
                 memcpy(cur.data, data, cap * sizeof(TYPE));                                                         \
                 /* canonical model tail */                                                                          \
-                memset(cur.m.q + cur.m.n, 0, (MAXCAP - cur.m.n) * sizeof cur.m.q[0]);                               \
+                memset(cur.mq, 0, sizeof cur.mq);                                                                   \
+                memcpy(cur.mq, m.q, m.n * sizeof m.q[0]);                                                           \
+                cur.mn = m.n;                                                                                       \
+                cur.movr = m.override;                                                                              \
                 uint64_t k = vh_hash(&cur, sizeof cur);                                                             \
                 size_t j;                                                                                           \
                 for (j = 0; j < nst; j++)                                                                           \
@@ -271,7 +283,9 @@ u_history(uint64_t idx, void *arg)
     vh_case_tag("history");
     for (int k = 0; k < 20; k++) {
         vh_arena_reset();
-        size_t cap = 1 + (size_t)vh_below(&r, vh_chance(&r, 1, 2) ? 8 : MAXCAP);
+        size_t cap = 1 + (size_t)vh_below(&r, vh_chance(&r, 1, 2) ? 8 : vh_chance(&r, 1, 6) ? MAXCAP : 64);
+        if (cap > 255)
+            VH_COUNT("history: capacity above 255");
         size_t nops = vh_tier ? 3000 : 800;
         int ty = (int)vh_below(&r, 3);
         VH_CASE4(idx, k, cap, 0);
@@ -304,4 +318,5 @@ harness_run(void)
     vh_require("history: override change");
     vh_require("history: observed full in override mode");
     vh_require("history: observed full in drop mode");
+    vh_require("history: capacity above 255");
 }
